@@ -30,6 +30,31 @@ def search_locals(fn):
     return out
 
 
+def header_split_rule(run):
+    """A header line is split into name and value at its FIRST ':' (values such as `Host: 10.0.0.2:8080` or a Referer URL
+    contain colons): the separator search in parse_request is a forward search. Shared with C18 (the proxy forwards the
+    parsed headers)."""
+    fx = run.fx
+    pr = fx.fn1(PR)
+    run.touch(pr)
+    n = 0
+    for c in pr.calls():
+        cn = (q.callee_name(c) or '')
+        m = cn.split('::')[-1]
+        args = c.get('args', [])
+        colon_arg = [a for a in args if q.strip_casts(a).get('k') in ('char', 'int') and q.strip_casts(a).get('v') in (58, ':')] or \
+            [a for a in args if q.strip_casts(a).get('k') == 'str' and q.strip_casts(a).get('v') == ':']
+        if not colon_arg or m not in ('memchr', 'memrchr', 'strchr', 'strrchr', 'find', 'rfind', 'find_first_of', 'find_last_of'):
+            continue
+        n += 1
+        backwards = m in ('memrchr', 'strrchr', 'rfind', 'find_last_of')
+        run.check(not backwards, 'R5', 'header-split-first-colon', '%s: %s' % (PR, q.render(pr, c)[:60]), pr.loc(c),
+                  'the name/value separator of a header line is searched from the END (%s): a value that itself contains a colon - "Host: 10.0.0.2:8080", a Referer URL - is split in the wrong place, the header is stored under a mangled name and the proxy no longer finds `host`' % m,
+                  'forward search: the first colon separates name and value')
+    if n < 1:
+        run.unrecognised('R5', 'header-split-first-colon', PR, pr.loc(), 'no search for the header separator found in parse_request (parsing idiom changed)')
+
+
 def check(run):
     fx = run.fx
     pr = fx.fn1(PR)
@@ -275,6 +300,30 @@ def check(run):
                       'the result of %s is used as the position argument of %s() without a dominating comparison with npos: when nothing is found (e.g. an all-whitespace header value) %s throws std::out_of_range, which escapes the parser instead of its own "parse failed"' % (q.render(f_, finds[0])[:50], m, m),
                       'dominated by a comparison with npos')
     run.ok('R5', 'npos-checked', 'scan', '', 'position arguments derived from a string search in http_server.cpp: %d' % npos_sites, nontrivial=False)
+    run.clause('a header line is split at its first colon')
+    header_split_rule(run)
+    run.clause('character-class tests in the parser\'s helpers include both ends of the class: no exclusive comparison against the first/last letter or digit (c < \'Z\' leaves Z out of the upper-case letters)')
+    ENDS = {ord('Z'): 'upper', ord('z'): 'lower', ord('9'): 'digit', ord('F'): 'hex', ord('f'): 'hex'}
+    STARTS = {ord('A'): 'upper', ord('a'): 'lower', ord('0'): 'digit'}
+    ncls = 0
+    for f_ in [g_ for g_ in fx.repo_functions() if g_.file.endswith('http_server.cpp') and g_.cfg is not None]:
+        for n_ in f_.all_nodes():
+            c = q.cmp_atom(n_) if n_['k'] in ('bin',) else None
+            if not c or c[0] not in ('<', '>', '<=', '>='):
+                continue
+            for lhs, rhs, op in ((c[1], c[2], c[0]), (c[2], c[1], q.SWAP[c[0]])):
+                r0 = q.strip_casts(rhs)
+                if not (is_node(r0) and r0['k'] == 'char'):
+                    continue
+                v = r0.get('v')
+                v = ord(v) if isinstance(v, str) and len(v) == 1 else v
+                if v in ENDS or v in STARTS:
+                    ncls += 1
+                    bad = (v in ENDS and op == '<') or (v in STARTS and op == '>')
+                    run.check(not bad, 'R5', 'class-boundary-inclusive', '%s: %s' % (q.top_function(fx, f_).norm, q.render(f_, n_)[:50]), f_.loc(n_),
+                              'a character-class test excludes the boundary character itself (%s): that one character is treated differently from the rest of its class - e.g. header names containing it are not folded to lower case, so look-ups and duplicate handling miss them' % q.render(f_, n_),
+                              'boundary included')
+    run.ok('R5', 'class-boundary-inclusive', 'scan', '', 'comparisons against class boundary characters in http_server.cpp: %d' % ncls, nontrivial=False)
     run.floor('R12', 8)
     run.floor('R5', 8)
 
